@@ -8,9 +8,19 @@ import (
 	"github.com/TarsCloud/TarsGo/tars/tools/tars2go/zzverif/vapi"
 )
 
-func c16Lex(maxBytes int) {
+// alphabet of the longer variant: one representative per lexical class
+var c16Alphabet = []byte{0, ' ', '\n', '/', '*', '"', '#', 'a', '0', ':', '{', 'x'}
+
+func c16Lex(maxBytes int, restricted bool) {
 	n := vapi.Len("n", maxBytes)
-	src := vapi.Bytes("src", n)
+	var src []byte
+	if restricted {
+		for i := 0; i < n; i++ {
+			src = append(src, c16Alphabet[vapi.Choice("cls", len(c16Alphabet))])
+		}
+	} else {
+		src = vapi.Bytes("src", n)
+	}
 	defer func() { _ = recover() }() // lexErr panics are diagnostics
 	ls := NewLexState("verif.tars", src)
 	eof := false
@@ -26,5 +36,5 @@ func c16Lex(maxBytes int) {
 	vapi.Check(eof, "the lexer reaches Eof after at most one token per source byte")
 }
 
-func VerifC16Lex()     { c16Lex(4); vapi.Reach("c16-lex") }
-func VerifC16LexLong() { c16Lex(5); vapi.Reach("c16-lex-long") }
+func VerifC16Lex()     { c16Lex(4, false); vapi.Reach("c16-lex") }
+func VerifC16LexLong() { c16Lex(6, true); vapi.Reach("c16-lex-long") }
